@@ -571,6 +571,48 @@ func scenarioGetResultStable(encrypted bool) string {
 	return fmt.Sprintf("SCENARIO prop=C15 code=C15:get-result-overwritten name=%s | problem=%q %s\n", name, bad, v)
 }
 
+// C16: the caller's request is not modified — also not when its header map holds keys that are not in canonical form (a map
+// filled by hand or shared between requests): miss, hit, validation, unsafe request
+func scenarioNonCanonicalRequestKeys() string {
+	dsn := registerConn(memcache.Open())
+	defer unregisterConn(dsn)
+	org := &scOrigin{vary: "Accept-Language", cc: "max-age=600"}
+	rt := httpcache.NewTransport(dsn, httpcache.WithUpstream(org))
+	u := "http://a.test/doc"
+	shared := http.Header{"accept-language": {"de"}, "X-TRACE": {"t1", "t2"}, "cache-control": {"max-stale=5"}, "User-Agent": {"verif"}}
+	snap := func() string {
+		var ks []string
+		for k, vs := range shared {
+			ks = append(ks, fmt.Sprintf("%q=%q", k, vs))
+		}
+		sort.Strings(ks)
+		return strings.Join(ks, ",")
+	}
+	before := snap()
+	var problems []string
+	for i, m := range []string{"GET", "GET", "POST", "GET"} {
+		req, _ := http.NewRequest(m, u, nil)
+		req.Header = shared // the caller's own map, used as it is
+		if i == 1 {
+			req.Header = shared
+		}
+		resp, err := rt.RoundTrip(req)
+		if err == nil {
+			io.Copy(io.Discard, resp.Body)
+			resp.Body.Close()
+		}
+		if after := snap(); after != before {
+			problems = append(problems, fmt.Sprintf("request-modified: after request %d (%s) the caller's header map is {%s}, it was {%s}", i+1, m, after, before))
+			break
+		}
+	}
+	v := "ok"
+	if len(problems) > 0 {
+		v = "BAD"
+	}
+	return fmt.Sprintf("SCENARIO prop=C16 code=C16:request-modified name=non-canonical-keys | problems=%q %s\n", strings.Join(problems, " ; "), v)
+}
+
 func TestScenarios(t *testing.T) {
 	out := os.Getenv("VERIF_OUT")
 	if out == "" {
@@ -584,6 +626,7 @@ func TestScenarios(t *testing.T) {
 	lines = append(lines, scenarioMultiLineSelecting())
 	lines = append(lines, scenarioUnprintableSelecting())
 	lines = append(lines, scenarioErrorBody(false), scenarioErrorBody(true))
+	lines = append(lines, scenarioNonCanonicalRequestKeys())
 	lines = append(lines, scenarioKeysWithTempFile(false), scenarioKeysWithTempFile(true), scenarioGetResultStable(false), scenarioGetResultStable(true))
 	if err := writeLines(filepath.Join(out, "scenarios.txt"), lines); err != nil {
 		t.Fatal(err)
